@@ -1153,6 +1153,32 @@ class Parser:
                 f"Invalid name {name} in {self.current_file}. Names can only start with letters"
             )
 
+    def check_generated_names(self):
+        """Check that no definition bears a name the compilers generate for another one.
+
+        Message ids, module ids, host ids, message classes and hashes are emitted with a
+        prefix (MT_X, MID_X, HID_X, MDF_X, HASH_X); constants, string constants, aliases,
+        host ids and structs under their own name. A struct MT_X next to a message X would
+        replace the id MT_X in the python module and redefine the macro MT_X in the C header.
+        """
+        generated = {}
+        for prefix, section in (
+            ("MT_", self.message_ids),
+            ("MDF_", self.message_defs),
+            ("HASH_", self.message_defs),
+            ("MID_", self.module_ids),
+            ("HID_", self.host_ids),
+        ):
+            for o in section.values():
+                generated[f"{prefix}{o.name}"] = o
+        for section in ("constants", "string_constants", "aliases", "host_ids", "struct_defs"):
+            for o in getattr(self, section).values():
+                if o.name in generated:
+                    g = generated[o.name]
+                    raise DuplicateNameError(
+                        f"Name conflict with a generated name: {section} -> {o.name} is also the name generated for {g.name}\n1: {g.src}\n2: {o.src}\n"
+                    )
+
     def check_reserved_name(self, section: str, name: str):
         """Check that a name emitted as-is does not replace a name the generated code uses."""
         if name in RESERVED_NAMES:
